@@ -78,7 +78,7 @@ class GreedyBestCandidate(FragmentContract):
     sequence and best_motif_idx stays -1)."""
     qualname = 'tangermeme.design.greedy_substitution'
     props = ('C20',)
-    stmt_block = ('pos = loss_curr.argmin()', 4)
+    stmt_block = ('pos = loss_curr.argmin()', ('until', 'if improvement'))
     key = 'tangermeme.design.greedy_substitution#best-candidate'
 
     def scopes(self, cfg):
